@@ -106,8 +106,12 @@ def parse_log(log, names):
             if kind_ != 'cover':
                 chosen = txt
                 break
+        if chosen is None and blocks:
+            # Kani prints one test per distinct input vector; when the failing assertion shares its vector with a cover
+            # check only the cover's test is printed -- use it (the replay on the real code confirms or rejects it)
+            chosen = blocks[-1][1]
         if chosen is None:
-            m = None if blocks else re.search(r'let concrete_vals: Vec<Vec<u8>> = vec!\[(.*?)\];', body, flags=re.S)
+            m = re.search(r'let concrete_vals: Vec<Vec<u8>> = vec!\[(.*?)\];', body, flags=re.S)
             chosen = m.group(1) if m else None
         if chosen is not None:
             vals = []
